@@ -363,3 +363,79 @@ Section Views.
     by rewrite addrC addKr mulrC mulKf.
   Qed.
 End Views.
+
+(* ---- the step of a call depends on that call's arguments only ------------------------------------ *)
+Lemma step_code_local :
+  sc_lstsq_kwargs step_args = [:: ("rcond", ArgParam "rcond"); ("sing_val_cutoff", ArgParam "sing_val_cutoff")]%string /\
+  sc_params_rebound step_args = [::] /\ sc_self_stores step_args = [::] /\
+  sc_optimize_step_kwargs step_args =
+    [:: ("rcond", ArgParam "rcond"); ("sing_val_cutoff", ArgParam "sing_val_cutoff"); ("broyden", ArgLocal "this_broyden")]%string /\
+  sc_solve_kwargs step_args =
+    [:: ("rcond", ArgParam "rcond"); ("sing_val_cutoff", ArgParam "sing_val_cutoff"); ("broyden", ArgParam "broyden")]%string /\
+  sc_broyden_update step_args = true.
+Proof. by do !split. Qed.
+
+Section StepLocal.
+  Variables (R : realFieldType) (m k' : nat).
+  Local Notation n := k'.+1.
+  Variables (f : 'cV[R]_n -> 'cV[R]_m) (h : 'cV[R]_n).
+  Variable lst : call_args R -> 'M[R]_(m, n) -> 'cV[R]_m -> 'cV[R]_n.
+  Local Notation sstep := (solver_step f h (fd_column fd) lst).
+  Local Notation run := (run_calls f h (fd_column fd) lst).
+
+  (* the step taken by a call is the least-squares solution for THAT call's arguments, of the
+     Jacobian and residual at the current point; the new state holds nothing of the arguments *)
+  Lemma solver_stepE a st :
+    sstep a st = mk_sstate (st_x st - lst a (step_jac f h (fd_column fd) a st) (f (st_x st)))
+                           (Some (step_jac f h (fd_column fd) a st, st_x st, f (st_x st))).
+  Proof. by []. Qed.
+
+  (* whatever was called before, with whatever arguments: two histories that reach the same point
+     with the same Jacobian cache take the same step for the same arguments *)
+  Lemma step_args_local pre1 pre2 st1 st2 a :
+    st_x (run pre1 st1) = st_x (run pre2 st2) -> st_cache (run pre1 st1) = st_cache (run pre2 st2) ->
+    sstep a (run pre1 st1) = sstep a (run pre2 st2).
+  Proof. by case: (run pre1 st1) (run pre2 st2) => [x1 c1] [x2 c2] /= -> ->. Qed.
+
+  (* ---- affine problems: after ANY history of calls a plain call lands ---- *)
+  Variables (U : 'M[R]_(m, n)) (Vh : 'M[R]_(n, n)) (s : 'rV[R]_n).
+  Variable default_rcond : R.                       (* SVD's constructor default *)
+  Hypothesis HU : U^T *m U = 1%:M.
+  Hypothesis HV : Vh *m Vh^T = 1%:M.
+  Variables (A : 'M[R]_(m, n)) (t : 'cV[R]_m) (xstar : 'cV[R]_n).
+  Hypothesis HA : A = U *m diag_mx s *m Vh.
+  Hypothesis Hcons : A *m xstar = t.
+  Hypothesis Hh : forall j, h j 0 != 0.
+  Hypothesis Hf : f = affine A t.
+
+  Definition eff_rcond (a : call_args R) : option R := Some (if ca_rcond a is Some r then r else default_rcond).
+  Definition eff_cutoff (a : call_args R) : nat := if ca_cutoff a is Some c then c else n.
+
+  (* numpy's decomposition of the Jacobian A is (U, s, Vh); on other matrices lst is arbitrary *)
+  Hypothesis Hlst : forall a y, lst a A y = lstsq_x U Vh s (lq_masks lstsq) (eff_rcond a) (eff_cutoff a) y.
+
+  Definition cache_ok (st : sstate R m n) : Prop :=
+    match st_cache st with Some (J, xl, yl) => J = A /\ yl = f xl | None => True end.
+
+  Lemma step_jac_affine a st : cache_ok st -> step_jac f h (fd_column fd) a st = A.
+  Proof.
+    rewrite /step_jac /cache_ok.
+    case: (st_cache st) => [[[J xl] yl] [EJ Ey]|_]; case: (ca_broyden a) => /=; rewrite ?Hf ?fd_jac_affine //.
+    rewrite EJ Ey Hf /broyden_update /affine opprB addrA subrK -mulmxBr subrr mul0mx scaler0 addr0 //.
+  Qed.
+
+  Lemma cache_ok_step a st : cache_ok st -> cache_ok (sstep a st).
+  Proof. by move=> ok; rewrite /cache_ok /= step_jac_affine. Qed.
+
+  Lemma cache_ok_run calls st : cache_ok st -> cache_ok (run calls st).
+  Proof. by elim: calls st => //= a calls IH st ok; apply: IH; apply: cache_ok_step. Qed.
+
+  Theorem plain_call_lands_after_any_history calls x0 a :
+    (forall i, keep s (eff_rcond a) (eff_cutoff a) i) ->
+    f (st_x (sstep a (run calls (mk_sstate x0 None)))) = 0.
+  Proof.
+    move=> Hk; have ok : cache_ok (run calls (mk_sstate x0 None)) by apply: cache_ok_run.
+    rewrite solver_stepE /= step_jac_affine // Hlst.
+    by have /= [_] := newton_lands HU HV Hk HA Hcons (st_x (run calls (mk_sstate x0 None))) Hh; rewrite -Hf.
+  Qed.
+End StepLocal.
